@@ -1,7 +1,7 @@
 (* C03 - flow versions sort consistently with history.  The comparators are the independent ones the property demands:
    sv_lt (SemVer section 11, Spec/SemVerSpec.v) and pep_std_cmp (the public PEP 440 order, Spec/Pep440StdOrder.v). *)
 From Coq Require Import Lia.
-From ZV Require Import Str SemVer SemVerSpec Pep440 Pep440Spec Pep440StdOrder OrderFacts Pep440Order Zerv Render Bump SemVerRoundTrip FlowLaw FlowOrder.
+From ZV Require Import Str SemVer SemVerSpec Pep440 Pep440Spec Pep440StdOrder OrderFacts Pep440Order Zerv Render Bump PepRoundTrip SemVerRoundTrip FlowLaw FlowOrder.
 Open Scope N_scope.
 
 Definition sv (x y z : N) (pre : option (list ident)) : semver :=
@@ -76,9 +76,27 @@ Theorem c03_law_off_final_release : forall vs opost lab n pamt dev x y zz,
   v_major vs' = Some x /\ v_minor vs' = Some y /\ v_patch vs' = Some (zz + 1) /\ v_pre vs' = Some {| pr_label := lab; pr_num := Some n |}.
 Proof. exact law_vars_off_final. Qed.
 
+(* the PEP 440 side: ANY PEP 440 value with release X.Y.(Z+1) and a pre-release label - whatever its post, dev and local parts - lies
+   strictly between the final releases X.Y.Z and X.Y.(Z+1) of the same epoch in the public PEP 440 order; and an object with variables
+   (X, Y, Z+1) + pre-release rendered through a validated standard-core schema showing the pre-release variable is such a value *)
+Theorem c03_pep440_prerelease_between : forall p e x y z l,
+  p_epoch p = e -> p_release p = [x; y; z + 1] -> p_pre_label p = Some l ->
+  pep_std_cmp (pep_final e [x; y; z]) p = Lt /\ pep_std_cmp p (pep_final e [x; y; z + 1]) = Lt.
+Proof. exact pep_prerelease_between. Qed.
+
+Theorem c03_flow_version_between_pep440 : forall z x y zz lab n e,
+  schema_validate (z_schema z) = true -> s_core (z_schema z) = standard_core -> In (CVar PreRelease) (s_extra (z_schema z)) ->
+  v_major (z_vars z) = Some x -> v_minor (z_vars z) = Some y -> v_patch (z_vars z) = Some (zz + 1) ->
+  v_pre (z_vars z) = Some {| pr_label := lab; pr_num := Some n |} -> u32 x -> u32 y -> u32 (zz + 1) -> u32 n ->
+  exists p, pep_of_zerv z = Some p /\ (p_epoch p = e ->
+    pep_std_cmp (pep_final e [x; y; zz]) p = Lt /\ pep_std_cmp p (pep_final e [x; y; zz + 1]) = Lt).
+Proof. exact flow_version_between_pep. Qed.
+
 Print Assumptions c03_between_semver.
 Print Assumptions c03_post_monotone_semver.
 Print Assumptions c03_between_pep440.
 Print Assumptions c03_post_monotone_pep440.
 Print Assumptions c03_flow_version_between.
 Print Assumptions c03_law_off_final_release.
+Print Assumptions c03_pep440_prerelease_between.
+Print Assumptions c03_flow_version_between_pep440.
